@@ -362,7 +362,8 @@ def modes_cases(draw):
         i = draw(st.integers(0, len(tests) - 1))
         tests[i]['acts']['body'].append(['in_child', ['die', draw(st.sampled_from(['exit3', 'kill']))]])
         die = i
-    return {'spec': spec, 'j': draw(st.sampled_from([2, 2, 2, 3])), 'verbose': draw(st.integers(0, 2)), 'die': die}
+    return {'spec': spec, 'j': draw(st.sampled_from([2, 2, 2, 3])), 'verbose': draw(st.integers(0, 2)), 'die': die,
+            'progress': draw(st.integers(0, 3)) == 0}
 
 
 class Modes(Part):
@@ -379,17 +380,20 @@ class Modes(Part):
         spec = common.with_prefix(case['spec'])
         n = case['j']
         viol = []
-        seq = drive.run_inproc(spec, common.args_of({'verbose': case['verbose']}), disk=True)
-        par = drive.run_inproc(spec, common.args_of({'verbose': case['verbose'], 'j': n}), disk=True)
+        progress = bool(case.get('progress'))
+        extra = ['-p'] if progress else []
+        seq = drive.run_inproc(spec, common.args_of({'verbose': case['verbose'], 'extra': extra}), disk=True)
+        par = drive.run_inproc(spec, common.args_of({'verbose': case['verbose'], 'j': n, 'extra': extra}), disk=True)
         viol += common.run_escaped(par, 'C10')
         w = common.traceana.World(spec)
-        order = [b.layer for b in parse.parse(seq.out).blocks]
+        order = [b.layer for b in parse.parse(seq.out, progress=progress).blocks]
         sh = lambda x: str(x).replace(spec['mp'], '')    # noqa: E731
-        labels = ['N=%d' % n, 'layers:%d' % len(order)] + (['child-dies'] if case['die'] is not None else [])
+        labels = ['N=%d' % n, 'layers:%d' % len(order)] + (['child-dies'] if case['die'] is not None else []) + \
+            (['--progress'] if progress else [])
         if par.exc is not None or seq.exc is not None or len(set(order)) != len(order):
             return Outcome(viol, labels, False)
         from .c06 import strip_keepalive
-        hp = [b.layer for b in parse.parse(strip_keepalive(par.out)).blocks if b.layer != '.EmptyLayer']
+        hp = [b.layer for b in parse.parse(strip_keepalive(par.out), progress=progress).blocks if b.layer != '.EmptyLayer']
         if hp != order:
             viol.append(('C10/order-differs-with-j', 'sequential run announces %s, -j %d announces %s'
                          % (sh(order), n, sh(hp))))
